@@ -245,6 +245,8 @@ def scenarios(thorough):
             out.append(Scenario([p], ins))
     for p in (["N1"], ["R", "N2"]):
         out.append(Scenario([p], 0))  # program 0 is a MIDI instrument too
+        out.append(Scenario([p], 1))  # ... and so is program 1, the number a fresh MidiTrack and MidiInstrument start with
+        out.append(Scenario([p], 127))
     for first, second in ((["N1", "R"], ["N2"]), (["R"], ["R", "N1"]), (["N2"], ["T2", "R"]), (["R", "R"], ["R"]), (["R", "N1"], ["N1"])):
         for ins in (None, 40):
             out.append(Scenario([first, second], ins))
